@@ -95,6 +95,13 @@ def opaque(t):
                     or (x[0] == "v" and isinstance(x[1], str) and x[1].startswith("__ctx_")))
 
 
+def _foreign_list(src_t):
+    """the iterated list is (possibly) a parameter or the unresolved result of a call: not one of the node's own lists"""
+    return mentions(src_t, lambda x: (x[0] == "v" and x[1] != "self") or x[0] == "apply"
+                    or (x[0] == "mcall" and not (x[2] in ("items", "values", "keys") and x[1][0] in ("compr", "dict")))   # a view of a dictionary built here is the node's own doing
+                    or (x[0] == "call" and x[1] not in KNOWN_PURE))
+
+
 def check_fold(chk, rule, where, kf, what, *, kind, term=None, sense=None, init_ok=None, source=SELF_NEXT,
                filt=TRUE, allow_neutral_filter=False, found_text=None, label=None, need_ties=True, strict_must=None):
     """Compare a canonical fold with a specification row. Returns True if discharged."""
@@ -160,6 +167,10 @@ def check_fold(chk, rule, where, kf, what, *, kind, term=None, sense=None, init_
                 probs.append("the result list starts from %s, not []" % show(kf.init))
         if strict_must is not None and ext.strict is not None and ext.strict != strict_must:
             probs.append("comparison is %s, must be %s" % ("strict" if ext.strict else "non-strict", "strict" if strict_must else "non-strict"))
+    if kf.source != source and isinstance(kf.source, tuple) and _foreign_list(kf.source):
+        chk.undecided(rule, where, "%s: iterates `%s`, a list that is handed in / computed elsewhere and not resolved to the successor list; equivalence with %s not established" % (
+            what, show(kf.source)[:120], expected))
+        return False
     if kf.source != source:
         probs.append("iterates `%s`, specification iterates `%s`" % (show(kf.source), show(source)))
     if not kf.whole:
